@@ -75,6 +75,15 @@ def load(path: Union[str, DDSPath, pathlib.Path]) -> Any:
                 f"Path {path_} is loaded before the current evaluation has produced it"
             )
         return _store().fetch_blob(key)
+    if (
+        _eval_ctx is not None
+        and _eval_ctx.resolved_paths is not None
+        and path_ in _eval_ctx.resolved_paths
+    ):
+        # The key found when the evaluation was analysed. The functions that load this path have a signature
+        # computed from it: reading the path again could return what another process committed meanwhile, and
+        # a result derived from that content would be stored under a signature that stands for this one.
+        return _store().fetch_blob(_eval_ctx.resolved_paths[path_])
     key = _store().fetch_paths([path_]).get(path_)
     if key is None:
         raise DDSException(f"The store {_store()} did not return path {path_}")
@@ -371,7 +380,10 @@ def _eval_new_ctx(
         _logger.debug(
             f"_eval_new_ctx: assigning {len(store_paths)} store path(s) to context"
         )
-        _eval_ctx = _eval_ctx._replace(requested_paths=store_paths)
+        _eval_ctx = _eval_ctx._replace(
+            requested_paths=store_paths,
+            resolved_paths=dict(resolved_indirect_refs),
+        )
         present_blobs: Optional[Set[PyHash]]
         if extra_debug:
             present_blobs = set(
